@@ -127,6 +127,18 @@ class ExternalOptimizer(Optimizer):
                 with contextlib.suppress(subprocess.TimeoutExpired):
                     process.wait(_PROCESS_TIMEOUT)
 
+                # The process may have ended before a pending exception was raised:
+                if exception is not None:
+                    raise exception
+
+                # A process that did not end normally did not finish the optimization:
+                if process.returncode != 0:
+                    msg = (
+                        "External optimizer process terminated abnormally, "
+                        f"exit status: {process.returncode}"
+                    )
+                    raise RuntimeError(msg)
+
     @property
     def allow_nan(self) -> bool:
         """Whether NaN is allowed.
